@@ -71,6 +71,42 @@ Definition trace_shape_ok (tr : list (event * obs)) : bool :=
 Definition trace_ok (c : config) (input : chain) (tr : list (event * obs)) : bool :=
   cfg_wfb c && trace_shape_ok tr && (run_trace c (new_instance input 0) tr 0 =? -1).
 
+(* ---------- beginInstance with queued messages (participant.go: Start, then ReceiveMany of the drained queue) ----------
+   ReceiveMany = receiveOne for every message in the given order (an internal error aborts), then ONE postReceive over the
+   distinct rounds whose state changed, in descending order: the first round that warrants a skip is skipped to. *)
+Fixpoint receive_all (c : config) (i : inst) (ms : list (msg * option chain)) (rounds : list Z) : inst * list Z :=
+  match ms with
+  | [] => (i, rounds)
+  | (m, sway) :: rest =>
+      let '(i1, changed) := receive_one c i m sway in
+      match i_err i1 with
+      | Some _ => (i1, rounds)
+      | None => receive_all c i1 rest (if changed && negb (existsb (Z.eqb (m_round m)) rounds) then m_round m :: rounds else rounds)
+      end
+  end.
+Fixpoint insert_desc (x : Z) (l : list Z) : list Z :=
+  match l with [] => [x] | y :: r => if y <? x then x :: l else y :: insert_desc x r end.
+Fixpoint post_receive_first (c : config) (i : inst) (rounds_desc : list Z) : inst :=
+  match rounds_desc with
+  | [] => i
+  | r :: rest => let i' := post_receive c i r in
+                 if (i_round i' =? i_round i) && (match i_err i' with None => true | Some _ => false end) then post_receive_first c i rest else i'
+  end.
+Definition receive_many (c : config) (i : inst) (ms : list (msg * option chain)) : inst :=
+  if phase_eqb (i_phase i) TERMINATED then i else
+  let '(i1, rounds) := receive_all c i ms [] in
+  match i_err i1 with
+  | Some _ => i1
+  | None => post_receive_first c i1 (fold_right insert_desc [] rounds)
+  end.
+Definition start_with_queue (c : config) (i : inst) (now : Z) (ms : list (msg * option chain)) : inst :=
+  receive_many c (step c (clear_out i) (EvStart now)) ms.
+(* trace whose first observation covers Start + ReceiveMany of the queued messages *)
+Definition traceq_ok (c : config) (input : chain) (now : Z) (queued : list (msg * option chain)) (first : obs) (tr : list (event * obs)) : bool :=
+  cfg_wfb c && forallb (fun p => wfmb (fst p)) queued && forallb (fun p => ev_okb (fst p)) tr &&
+  let i1 := start_with_queue c (new_instance input 0) now queued in
+  obs_matches i1 first && (o_err first || (run_trace c i1 tr 1 =? -1)).
+
 (* debugging aid: index of the first differing event together with what the model produced there *)
 Fixpoint run_trace_dbg (c : config) (i : inst) (tr : list (event * obs)) (idx : Z)
   : option (Z * (Z * Z * list out * option ierr * option just) * obs) :=
